@@ -99,11 +99,14 @@ def random_jobs(ctx, prop, fns, count):
         A = rc.rand_input(rng, fn)
         n = len(A)
         job = dict(fn=fn, prop=prop, R0=A.tolist(), seed=rng.randrange(2 ** 31), src="random")
+        if rng.random() < 0.3:
+            job["dtype"] = "int"
         if mask:
             B = np.zeros((n, n))
+            mval = rng.choice([1, 1, 0.5, 0.25, -1, 3])      # any nonzero value forbids the cell
             for _ in range(rng.randint(0, n)):
                 u, v = rng.sample(range(n), 2)
-                B[u, v] = B[v, u] = 1
+                B[u, v] = B[v, u] = mval
             job["B"] = B.tolist()
             job["maxswap"] = rng.choice([0, 1, 2, 5])
         elif latt:
